@@ -37,7 +37,16 @@ class Ev:
         self.excluded_known.update(other.excluded_known)
         self.inconclusive += other.inconclusive
         for k, v in other.extra.items():
-            if isinstance(v, (int, float)) and isinstance(self.extra.get(k, 0), (int, float)):
+            if isinstance(v, dict) and k == "sites":
+                tgt = self.extra.setdefault("sites", {})
+                for sk, sv in v.items():
+                    if sk not in tgt:
+                        tgt[sk] = dict(sv)
+                    else:
+                        tgt[sk]["n"] += sv["n"]
+                        if sv["hex"] and (not tgt[sk]["hex"] or sv["len"] < tgt[sk]["len"]):
+                            tgt[sk]["hex"], tgt[sk]["len"] = sv["hex"], sv["len"]
+            elif isinstance(v, (int, float)) and isinstance(self.extra.get(k, 0), (int, float)):
                 self.extra[k] = self.extra.get(k, 0) + v
             else:
                 self.extra.setdefault(k, v)
